@@ -1,5 +1,5 @@
 //verif:package github.com/kstenerud/go-concise-encoding/internal/verifh/c16
-//verif:config cap=300
+//verif:config cap=300 maxsec=1800
 //verif:bounds histories of two or three documents on one instance; the earlier documents are templates (valid, aborted at any event index, invalid); the last is a template with symbolic payload; MaxDocumentSizeBytes / MaxObjectCount / MaxContainerDepth symbolic
 //verif:assume "same error" = same nil-ness
 package c16
